@@ -7,6 +7,7 @@ def run(ctx):
     ctx.pmap("mzcheck.checks.gencheck", "explore_task", tasks)
     ctx.pmap("mzcheck.checks.gencheck", "sequence_task", gencheck.sequence_tasks(ctx.tier, "C01"), fresh=True)
     ctx.pmap("mzcheck.checks.gencheck", "alias_task", [dict(which="C01")])
+    ctx.pmap("mzcheck.checks.gencheck", "long_walk_task", [dict(which="C01", lengths=[k, k + 1, k + 2]) for k in ((1000, 6000, 30000) if ctx.quick else (1000, 6000, 30000, 100000, 300000))])
     finish(ctx, tasks)
 
 
